@@ -2,8 +2,6 @@ package main
 
 import (
 	"fmt"
-	"sort"
-	"strconv"
 	"strings"
 	"sync"
 	"time"
@@ -16,263 +14,18 @@ import (
 	"verif/harness/lib"
 )
 
-// ---- a mesh of real FloodSub routers wired by in-memory streams ----
-
-type meshDel struct {
-	node, sub int
-	ch, data  string
-	from      peer.ID
-}
-
-type wireRec struct {
-	from, to int
-	data     string
-}
-
-type mesh struct {
-	e      *engine
-	nodes  []*node
-	edges  [][2]int
-	subsOf [][]string // per node: channel of each local subscription
-	subs   [][]pubsub.Subscription
-
-	mu       sync.Mutex
-	dels     []meshDel
-	wires    []wireRec
-	firstHop []map[string]peer.ID // node -> message data -> previous hop of the accepted copy
-	byFS     map[*floodsub.FloodSub]int
-}
-
-var chanNum = map[string]int{"c1": 1, "c2": 2, "c3": 3}
-
-func newMesh(e *engine, n int, subsOf [][]string) *mesh {
-	m := &mesh{e: e, subsOf: subsOf, byFS: map[*floodsub.FloodSub]int{}}
-	for i := 0; i < n; i++ {
-		nd := newNode(i, newKey(e.rng))
-		m.nodes = append(m.nodes, nd)
-		m.byFS[nd.fs] = i
-		m.firstHop = append(m.firstHop, map[string]peer.ID{})
-		var ss []pubsub.Subscription
-		for si, ch := range subsOf[i] {
-			s, err := nd.fs.AddSubscription(nd.ctx, nd.key.sk, ch)
-			if err != nil {
-				panic(err)
-			}
-			i, si, ch := i, si, ch
-			s.AddHandler(func(msg pubsub.Message) {
-				m.mu.Lock()
-				m.dels = append(m.dels, meshDel{node: i, sub: si, ch: ch, data: string(msg.GetData()), from: msg.GetFrom()})
-				m.mu.Unlock()
-			})
-			ss = append(ss, s)
-		}
-		m.subs = append(m.subs, ss)
-	}
-	return m
-}
-
-// gate records the accepted copy of every message at every node.
-func (m *mesh) gate(point string, fs *floodsub.FloodSub, objs ...any) {
-	if point != "floodsub.seen" {
-		return
-	}
-	i, ok := m.byFS[fs]
-	if !ok {
-		return
-	}
-	prev := objs[0].(peer.ID)
-	pkt := objs[1].(*peer.SignedMsg)
-	d := string(d0(pkt))
-	m.mu.Lock()
-	if _, dup := m.firstHop[i][d]; dup {
-		m.firstHop[i][d+"#dup"] = prev
-	} else {
-		m.firstHop[i][d] = prev
-	}
-	m.mu.Unlock()
-}
-
-func (m *mesh) tap(from, to int) func([]byte) {
-	return func(frame []byte) {
-		p, ok := framePayload(frame)
-		if !ok {
-			return
-		}
-		pkt := &floodsub.Packet{}
-		if err := pkt.UnmarshalVT(p); err != nil {
-			return
-		}
-		for _, pm := range pkt.GetPublish() {
-			m.mu.Lock()
-			m.wires = append(m.wires, wireRec{from: from, to: to, data: string(d0(pm))})
-			m.mu.Unlock()
-		}
-	}
-}
-
-func (m *mesh) connect(i, j int) {
-	a, b := newPipe()
-	a.tap = m.tap(i, j)
-	b.tap = m.tap(j, i)
-	linkID := uint64(1000 + len(m.edges))
-	m.edges = append(m.edges, [2]int{i, j})
-	ini := m.nodes[i].key.id.String() <= m.nodes[j].key.id.String()
-	m.nodes[i].attach(m.nodes[j].key.id, linkID, a, ini)
-	m.nodes[j].attach(m.nodes[i].key.id, linkID, b, !ini)
-}
-
-func (m *mesh) neighbours(i int) []int {
-	var l []int
-	for _, e := range m.edges {
-		if e[0] == i {
-			l = append(l, e[1])
-		}
-		if e[1] == i {
-			l = append(l, e[0])
-		}
-	}
-	sort.Ints(l)
-	return l
-}
-
-func (m *mesh) subscribed(i int, ch string) bool {
-	for _, c := range m.subsOf[i] {
-		if c == ch {
-			return true
-		}
-	}
-	return false
-}
-
-func (m *mesh) idxOf(id peer.ID) int {
-	for i, n := range m.nodes {
-		if n.key.id == id {
-			return i
-		}
-	}
-	return -1
-}
-
-// converged: every node knows exactly the true subscriptions of its neighbours.
-func (m *mesh) converged() bool {
-	for i, n := range m.nodes {
-		st := n.fs.VerifSnapshot()
-		if st.IncSessions != 0 || len(st.Peers) != len(m.neighbours(i)) {
-			return false
-		}
-		for _, ok := range st.Peers {
-			if !ok {
-				return false
-			}
-		}
-		for ch := range chanNum {
-			want := 0
-			for _, j := range m.neighbours(i) {
-				if m.subscribed(j, ch) {
-					want++
-				}
-			}
-			if len(st.PeerChannels[ch]) != want {
-				return false
-			}
-			for _, tpl := range st.PeerChannels[ch] {
-				j := m.idxOf(tpl.PeerID)
-				if j < 0 || !m.subscribed(j, ch) {
-					return false
-				}
-			}
-		}
-	}
-	return true
-}
-
-// modelNodes renders the routers' REAL tables for the model.
-func (m *mesh) modelNodes() string {
-	var parts []string
-	for _, n := range m.nodes {
-		st := n.fs.VerifSnapshot()
-		var subs, know, peers []string
-		for ch := range st.Channels {
-			subs = append(subs, strconv.Itoa(chanNum[ch]))
-		}
-		for ch, l := range st.PeerChannels {
-			for _, tpl := range l {
-				know = append(know, fmt.Sprintf("%d/%d", chanNum[ch], m.idxOf(tpl.PeerID)))
-			}
-		}
-		for tpl := range st.Peers {
-			peers = append(peers, strconv.Itoa(m.idxOf(tpl.PeerID)))
-		}
-		sort.Strings(subs)
-		sort.Strings(know)
-		sort.Strings(peers)
-		j := func(l []string) string {
-			if len(l) == 0 {
-				return "_"
-			}
-			return strings.Join(l, "+")
-		}
-		parts = append(parts, j(subs)+"|"+j(know)+"|"+j(peers))
-	}
-	return strings.Join(parts, ";")
-}
-
-func (m *mesh) stop() {
-	for _, n := range m.nodes {
-		n.stop()
-	}
-}
-
-type meshPub struct {
-	node   int
-	ch     string
-	id     int
-	origin int // model peer number of the signing identity
-	data   string
-	// foreign: signed with an identity that is not the publishing node's
-	foreign bool
-}
-
-// reachSub: nodes reachable from src through edges whose far end subscribes to ch
-// (independent restatement of "connected through subscribers").
-func (m *mesh) reachSub(src int, ch string) map[int]bool {
-	seen := map[int]bool{src: true}
-	q := []int{src}
-	for len(q) > 0 {
-		a := q[0]
-		q = q[1:]
-		for _, b := range m.neighbours(a) {
-			if !seen[b] && m.subscribed(b, ch) {
-				seen[b] = true
-				q = append(q, b)
-			}
-		}
-	}
-	return seen
-}
-
-func (m *mesh) reachAny(src int) map[int]bool {
-	seen := map[int]bool{src: true}
-	q := []int{src}
-	for len(q) > 0 {
-		a := q[0]
-		q = q[1:]
-		for _, b := range m.neighbours(a) {
-			if !seen[b] {
-				seen[b] = true
-				q = append(q, b)
-			}
-		}
-	}
-	return seen
-}
-
-// runMesh builds the mesh, publishes, waits for quiescence and compares with the model.
+// runMesh builds a static mesh (edges may repeat a pair: parallel links), publishes, waits for
+// quiescence and compares with the model.
 func (e *engine) runMesh(name string, n int, edges [][2]int, subsOf [][]string, pubs []meshPub, lateEdges int, branch string) {
-	m := newMesh(e, n, subsOf)
+	m := newMesh(e, n)
 	defer m.stop()
 	floodsub.VerifSetGate(m.gate)
 	defer floodsub.VerifSetGate(nil)
+	for i := range subsOf {
+		for _, ch := range subsOf[i] {
+			m.subscribe(i, ch)
+		}
+	}
 	early := edges[:len(edges)-lateEdges]
 	for _, ed := range early {
 		m.connect(ed[0], ed[1])
@@ -285,256 +38,154 @@ func (e *engine) runMesh(name string, n int, edges [][2]int, subsOf [][]string, 
 		m.connect(ed[0], ed[1])
 	}
 	opHead := fmt.Sprintf("pubsub.flood scenario=%s", name)
-	if !waitFor(8*time.Second, m.converged) {
-		e.rep.Compare(opHead, "converged", "not-converged", branch, "pubsub.mesh:converge", "subscription announcements did not converge to the neighbours' true subscriptions: "+m.modelNodes())
+	if class, what := m.settle(8 * time.Second); class != "" {
+		e.rep.Compare(opHead, "converged", "not-converged", branch, "pubsub.mesh:"+class, "subscription announcements did not converge to the neighbours' true subscriptions: "+what)
 		return
 	}
-	nodesArg := m.modelNodes()
-	extra := newKey(e.rng) // a publishing identity that is not a node
-	var pl []string
-	for k := range pubs {
-		p := &pubs[k]
-		p.id = k + 1
-		p.data = fmt.Sprintf("%s-m%d-%s", name, p.id, lib.Hex(e.rng.Bytes(4)))
-		p.origin = p.node
-		if p.foreign {
-			p.origin = 100 + p.node
-		}
-		pl = append(pl, fmt.Sprintf("%d/%d/%d/%d", p.node, p.id, p.origin, chanNum[p.ch]))
-	}
-	op := fmt.Sprintf("%s nodes=%s pubs=%s", opHead, nodesArg, strings.Join(pl, ","))
-	model := e.m.Query(op)
-	// expected deliveries per node according to the model
-	wantDel := map[int]map[int]bool{}
-	for _, ent := range strings.Split(lib.KV(model, "del"), ",") {
-		kv := strings.SplitN(ent, ":", 2)
-		i, _ := strconv.Atoi(kv[0])
-		wantDel[i] = map[int]bool{}
-		if kv[1] != "_" {
-			for _, s := range strings.Split(kv[1], "+") {
-				id, _ := strconv.Atoi(s)
-				wantDel[i][id] = true
-			}
-		}
-	}
-	for k := range pubs {
-		p := &pubs[k]
-		sk := m.nodes[p.node].key.sk
-		if p.foreign {
-			sk = extra.sk
-		}
-		if err := m.nodes[p.node].fs.Publish(m.nodes[p.node].ctx, p.ch, sk, []byte(p.data)); err != nil {
-			panic(err)
-		}
-		if e.rng.Intn(2) == 0 {
-			time.Sleep(time.Duration(e.rng.Intn(500)) * time.Microsecond)
-		}
-	}
-	dataID := map[string]int{}
-	for _, p := range pubs {
-		dataID[p.data] = p.id
-	}
-	// quiescence: all predicted deliveries arrived, then the wire stays silent
-	expected := 0
-	for i, ids := range wantDel {
-		for id := range ids {
-			for _, c := range subsOf[i] {
-				if c == pubs[id-1].ch {
-					expected++
-				}
-			}
-		}
-	}
-	waitFor(5*time.Second, func() bool { m.mu.Lock(); defer m.mu.Unlock(); return len(m.dels) >= expected })
-	last := -1
-	for i := 0; i < 200; i++ {
-		time.Sleep(4 * time.Millisecond)
-		m.mu.Lock()
-		cur := len(m.dels) + len(m.wires)
-		m.mu.Unlock()
-		if cur == last && i >= 4 {
-			break
-		}
-		last = cur
-	}
-	m.mu.Lock()
-	dels := append([]meshDel(nil), m.dels...)
-	wires := append([]wireRec(nil), m.wires...)
-	m.mu.Unlock()
+	e.meshRound(m, opHead, pubs, branch)
+}
 
-	// implementation outcome in the model's format
-	cnt := map[[3]int]int{} // node, sub, id
-	for _, d := range dels {
-		cnt[[3]int{d.node, d.sub, dataID[d.data]}]++
+// ---- dynamic histories ----
+
+// runHistory runs an interleaved history of connect / parallel connect / subscribe / release /
+// disconnect / reconnect (closed tuple again; live tuple replaced) with settle points; at every
+// settle point the belief monitor must hold for EVERY live link (incl. links that came up after
+// subscriptions were announced elsewhere) and a publish round is run and judged.
+// script: explicit list of ops; nil = random.
+func (e *engine) runHistory(name string, n int, script []string, steps int, branch string) {
+	rng := e.rng
+	m := newMesh(e, n)
+	defer m.stop()
+	floodsub.VerifSetGate(m.gate)
+	defer floodsub.VerifSetGate(nil)
+	for _, nd := range m.nodes {
+		nd.start()
 	}
-	var implParts []string
-	mon := ""
-	key := "pubsub.mesh:" + branch
-	for i := 0; i < n; i++ {
-		var ids []string
-		for _, p := range pubs {
-			tot, bad := 0, false
-			for si, c := range subsOf[i] {
-				k := cnt[[3]int{i, si, p.id}]
-				if c != p.ch {
-					if k != 0 {
-						bad = true
-						mon = fmt.Sprintf("node %d: subscription of channel %s was handed a message of channel %s", i, c, p.ch)
-					}
-					continue
-				}
-				tot += k
-				if k > 1 {
-					bad = true
-					mon = fmt.Sprintf("node %d: message %d handed %d times to one subscription (at most once violated)", i, p.id, k)
-					key = "pubsub.mesh:duplicate-delivery"
-				}
-				if k == 0 {
-					bad = tot != 0 || bad
-				}
+	var hist []string
+	rounds := 0
+	doSettle := func() bool {
+		opHead := fmt.Sprintf("pubsub.flood scenario=%s-s%d hist=%s", name, rounds, strings.Join(hist, ","))
+		if class, what := m.settle(6 * time.Second); class != "" {
+			e.rep.Compare(opHead, "converged", "not-converged", branch, "pubsub.mesh:"+class,
+				"after the history "+strings.Join(hist, ",")+" (all links idle): "+what)
+			return false
+		}
+		rounds++
+		// publish on every channel somebody subscribes to, from 1-3 random nodes
+		var pubs []meshPub
+		np := 1 + rng.Intn(3)
+		for k := 0; k < np; k++ {
+			pubs = append(pubs, meshPub{node: rng.Intn(n), ch: meshChans[rng.Intn(2)], foreign: rng.Intn(8) == 0})
+		}
+		e.meshRound(m, opHead, pubs, branch)
+		return true
+	}
+	apply := func(op string) bool {
+		var a, b int
+		var ch string
+		switch {
+		case sscan(op, "connect:%d:%d", &a, &b):
+			m.connect(a, b)
+		case sscan(op, "sub:%d:%s", &a, &ch):
+			m.subscribe(a, ch)
+		case sscan(op, "rel:%d:%s", &a, &ch):
+			if !m.release(a, ch) {
+				return true
 			}
-			if tot > 0 {
-				s := strconv.Itoa(p.id)
-				if bad {
-					s += "!"
-				}
-				ids = append(ids, s)
+		case sscan(op, "close:%d", &a):
+			if a >= len(m.links) || !m.links[a].alive {
+				return true
+			}
+			m.closeLink(m.links[a])
+		case sscan(op, "reopen:%d", &a): // the same (peer, link id) tuple again: after close, or replacing the live session
+			if a >= len(m.links) {
+				return true
+			}
+			m.open(m.links[a])
+		case sscan(op, "waitclosed:%d", &a): // both routers dropped the session of the closed link
+			l := m.links[a]
+			waitFor(5*time.Second, func() bool {
+				_, oka := m.nodes[l.a].fs.VerifSnapshot().Peers[m.tplOf(l, l.b)]
+				_, okb := m.nodes[l.b].fs.VerifSnapshot().Peers[m.tplOf(l, l.a)]
+				return !oka && !okb
+			})
+			return true
+		case sscan(op, "waitswept:%d:%s", &a, &ch): // Execute of node a swept the released channel
+			waitFor(5*time.Second, func() bool { _, ok := m.nodes[a].fs.VerifSnapshot().Channels[ch]; return !ok })
+			return true
+		case op == "settle":
+			hist = append(hist, op)
+			return doSettle()
+		case op == "pause":
+			time.Sleep(time.Duration(rng.Intn(3000)) * time.Microsecond)
+			return true
+		default:
+			panic("bad history op " + op)
+		}
+		hist = append(hist, op)
+		return true
+	}
+	if script != nil {
+		for _, op := range script {
+			if !apply(op) {
+				return
 			}
 		}
-		if len(ids) == 0 {
-			implParts = append(implParts, fmt.Sprintf("%d:_", i))
-		} else {
-			implParts = append(implParts, fmt.Sprintf("%d:%s", i, strings.Join(ids, "+")))
+		return
+	}
+	// random history: start from a spanning tree so that publishes travel
+	for i := 1; i < n; i++ {
+		if rng.Intn(4) != 0 {
+			apply(fmt.Sprintf("connect:%d:%d", rng.Intn(i), i))
 		}
 	}
-	impl := "ok del=" + strings.Join(implParts, ",")
-	mdl := "ok del=" + lib.KV(model, "del")
-	// monitors restating the property (no model involved)
-	for _, d := range dels {
-		if _, ok := dataID[d.data]; !ok {
-			mon = "a subscriber was handed data nobody published"
-		}
-	}
-	for _, w := range wires {
-		id := dataID[w.data]
-		if id == 0 {
-			mon = "a packet carrying an unknown message was sent"
-			continue
-		}
-		p := pubs[id-1]
-		if p.origin < 100 && w.to == p.origin {
-			mon = fmt.Sprintf("message %d sent back to its original publisher (node %d -> node %d)", id, w.from, w.to)
-			key = "pubsub.mesh:echo-origin"
-		}
-		m.mu.Lock()
-		prev, ok := m.firstHop[w.from][w.data]
-		m.mu.Unlock()
-		if ok && m.idxOf(prev) == w.to {
-			mon = fmt.Sprintf("message %d sent back to the peer it was received from (node %d -> node %d)", id, w.from, w.to)
-			key = "pubsub.mesh:echo-prevhop"
-		}
-		if !m.subscribed(w.to, p.ch) {
-			mon = fmt.Sprintf("message %d sent to node %d which did not announce a subscription to %s", id, w.to, p.ch)
-		}
-	}
-	unsubRelay := ""
-	for _, p := range pubs {
-		rs := m.reachSub(p.node, p.ch)
-		ra := m.reachAny(p.node)
-		for i := 0; i < n; i++ {
-			if !m.subscribed(i, p.ch) {
+	for st := 0; st < steps; st++ {
+		var op string
+		switch r := rng.Intn(20); {
+		case r < 4:
+			op = fmt.Sprintf("sub:%d:%s", rng.Intn(n), meshChans[rng.Intn(2)])
+		case r < 7:
+			op = fmt.Sprintf("rel:%d:%s", rng.Intn(n), meshChans[rng.Intn(2)])
+		case r < 10:
+			a, b := rng.Intn(n), rng.Intn(n)
+			if a == b {
 				continue
 			}
-			got := false
-			for si, c := range subsOf[i] {
-				if c == p.ch && cnt[[3]int{i, si, p.id}] > 0 {
-					got = true
-				}
-			}
-			if rs[i] && !got {
-				mon = fmt.Sprintf("message %d did not reach node %d although it is connected to the publisher through subscribers", p.id, i)
-				key = "pubsub.mesh:lost"
-			}
-			if ra[i] && !rs[i] && !got {
-				unsubRelay = fmt.Sprintf("message %d on %s published at node %d never reached subscriber node %d: every path between them passes through a node that is not subscribed to the channel, and such nodes do not relay", p.id, p.ch, p.node, i)
-			}
-		}
-	}
-	e.rep.Compare(op, mdl, impl, branch, key, mon)
-	if lib.KV(model, "quiescent") != "1" {
-		e.rep.Compare(op+" #quiescent", "quiescent=1", "quiescent="+lib.KV(model, "quiescent"), branch, "pubsub.mesh:model-not-quiescent", "")
-	}
-	if unsubRelay != "" {
-		// the full-strength clause ("reaches every subscriber of a connected mesh") fails by design
-		e.rep.Compare(op+" #full-reach", mdl, impl, "mesh.unsubscribed-relay", "pubsub.mesh:unsubscribed-relay", unsubRelay)
-	}
-	// per node: forwarding targets of every accepted message vs the model's execPublish
-	for i := 0; i < n; i++ {
-		st := m.nodes[i].fs.VerifSnapshot()
-		var know, peers []string
-		for ch, l := range st.PeerChannels {
-			for _, tpl := range l {
-				know = append(know, fmt.Sprintf("%d/%d", chanNum[ch], m.idxOf(tpl.PeerID)))
-			}
-		}
-		for tpl := range st.Peers {
-			peers = append(peers, strconv.Itoa(m.idxOf(tpl.PeerID)))
-		}
-		sort.Strings(know)
-		sort.Strings(peers)
-		for _, p := range pubs {
-			m.mu.Lock()
-			prev, ok := m.firstHop[i][p.data]
-			_, dup := m.firstHop[i][p.data+"#dup"]
-			m.mu.Unlock()
-			if dup {
-				e.rep.Compare(op+" #seen-twice", "once", "twice", branch, "pubsub.mesh:seen-twice", fmt.Sprintf("node %d passed the seen-message check twice for message %d", i, p.id))
-			}
-			if !ok {
+			op = fmt.Sprintf("connect:%d:%d", a, b) // may duplicate a pair: parallel link
+		case r < 12:
+			if len(m.links) == 0 {
 				continue
 			}
-			prevN := m.idxOf(prev)
-			if prevN < 0 {
-				prevN = p.origin
+			op = fmt.Sprintf("close:%d", rng.Intn(len(m.links)))
+		case r < 14:
+			if len(m.links) == 0 {
+				continue
 			}
-			kn, pe := "_", "_"
-			if len(know) != 0 {
-				kn = strings.Join(know, "+")
-			}
-			if len(peers) != 0 {
-				pe = strings.Join(peers, "+")
-			}
-			fop := fmt.Sprintf("pubsub.fwd know=%s peers=%s origin=%d prev=%d ch=%d", kn, pe, p.origin, prevN, chanNum[p.ch])
-			fm := e.m.Query(fop)
-			observed := func() string {
-				m.mu.Lock()
-				defer m.mu.Unlock()
-				var tos []int
-				for _, w := range m.wires {
-					if w.from == i && w.data == p.data {
-						tos = append(tos, w.to)
-					}
-				}
-				sort.Ints(tos)
-				if len(tos) == 0 {
-					return "ok _"
-				}
-				s := make([]string, len(tos))
-				for k := range tos {
-					s[k] = strconv.Itoa(tos[k])
-				}
-				return "ok " + strings.Join(s, "+")
-			}
-			// the writes of an accepted copy may still be queued in the sessions: wait for the predicted set
-			waitFor(3*time.Second, func() bool { return observed() == fm })
-			fi := observed()
-			fb := "fwd.some"
-			if fm == "ok _" {
-				fb = "fwd.none"
-			}
-			e.rep.Compare(fop, fm, fi, fb, "pubsub.fwd", "")
+			op = fmt.Sprintf("reopen:%d", rng.Intn(len(m.links)))
+		case r < 15:
+			op = "pause"
+		default:
+			op = "settle"
+		}
+		if !apply(op) {
+			return
 		}
 	}
+	apply("settle")
+}
+
+// sscan is fmt.Sscanf on ':'-separated ops (all verbs must match and nothing may be left).
+func sscan(op, format string, args ...any) bool {
+	fp, op2 := strings.Split(format, ":"), strings.Split(op, ":")
+	if len(fp) != len(op2) || fp[0] != op2[0] {
+		return false
+	}
+	for i := 1; i < len(fp); i++ {
+		if _, err := fmt.Sscanf(op2[i], fp[i], args[i-1]); err != nil {
+			return false
+		}
+	}
+	return true
 }
 
 func lineEdges(n int) [][2]int {
@@ -589,14 +240,26 @@ func (e *engine) randomConnected(n int) [][2]int {
 }
 
 func (e *engine) runC28() {
-	e.rep.Rule = "meshes of 3-5 REAL FloodSub routers wired by in-memory streams (line, ring, star, complete, random connected graphs; links established before and after the routers start, in random order), random subsets of subscribers on 2 channels (some nodes with two subscriptions to a channel), 1-4 publishes per mesh from subscribed and unsubscribed publishers and from a signing identity that is not a node; observed = handler callbacks per subscription, publish packets per directed link (stream tap), accepted copy per node (gate hook); the same message injected concurrently from two neighbours with the first copy held right after its seen-set test (gate); distinct = distinct scenario"
-	e.rep.Require("mesh.line", "mesh.ring", "mesh.star", "mesh.complete", "mesh.random", "mesh.late-links", "mesh.unsubscribed-relay", "race.two-neighbours", "fwd.some", "fwd.none")
+	e.rep.Rule = "meshes of 3-6 REAL FloodSub routers (PublishHashType unset/SHA256/SHA1/BLAKE3 per router) wired by in-memory streams (line, ring, star, complete, random connected graphs, the same graphs with PARALLEL links between a pair; links established before and after the routers start, in random order), random subsets of subscribers on 2 channels (some nodes with two subscriptions to a channel), 1-4 publishes per mesh from subscribed and unsubscribed publishers and from a signing identity that is not a node; dynamic histories of connect / parallel connect / subscribe / release / close / re-open of the same (peer, link) tuple (after close and over a live session) with settle points, a publish round at every settle point; observed = handler callbacks per subscription with the reported sender, every publish and subscription entry per directed link and link id (stream tap), accepted copy per node (gate hook), router tables at the settle points; the same message injected concurrently from two neighbours with the first copy held right after its seen-set test (gate); distinct = distinct scenario"
+	e.rep.Require("mesh.line", "mesh.ring", "mesh.star", "mesh.complete", "mesh.random", "mesh.late-links", "mesh.parallel", "mesh.unsubscribed-relay", "race.two-neighbours", "fwd.some", "fwd.none",
+		"targets.one-link", "targets.parallel-links", "targets.none", "hist.scripted", "hist.random", "mesh.unsubscribe-received")
 	// the refuted full-strength clause: 3-node line, unsubscribed middle (replayed every run)
 	e.runMesh("witness-line3", 3, lineEdges(3), [][]string{{"c1"}, {}, {"c1"}}, []meshPub{{node: 0, ch: "c1"}}, 0, "mesh.line")
+	// relay over a pair joined by two links: W -1- X =2= Y, everybody subscribed, W and Y publish
+	e.runMesh("parallel-relay", 3, [][2]int{{0, 1}, {1, 2}, {1, 2}}, [][]string{{"c1"}, {"c1"}, {"c1"}}, []meshPub{{node: 0, ch: "c1"}, {node: 2, ch: "c1"}}, 0, "mesh.parallel")
+	// scripted histories: link first, subscribe later, settle (an evaluation round passes), a link
+	// to another node later, traffic enters through the later node; release received by real routers;
+	// a tuple connected again over its live session
+	e.runHistory("late-link", 3, []string{"connect:0:1", "settle", "sub:1:c1", "sub:0:c1", "settle", "sub:2:c1", "connect:1:2", "settle", "rel:1:c1", "settle", "sub:1:c1", "settle"}, 0, "hist.scripted")
+	e.runHistory("late-link-4", 4, []string{"sub:0:c2", "connect:0:1", "connect:1:2", "settle", "sub:1:c1", "sub:2:c1", "settle", "connect:2:3", "connect:0:3", "sub:3:c1", "sub:0:c1", "settle", "rel:2:c1", "settle"}, 0, "hist.scripted")
+	e.runHistory("replace-live", 3, []string{"sub:0:c1", "sub:1:c1", "sub:2:c1", "connect:0:1", "connect:1:2", "settle", "reopen:0", "settle", "connect:0:1", "settle", "close:0", "settle"}, 0, "hist.scripted")
+	// a link is closed, the last subscription is released while it is down, the same (peer, link)
+	// tuple comes up again: the neighbour must not keep the subscription of the closed session
+	e.runHistory("reconnect-after-release", 3, []string{"sub:0:c1", "sub:1:c1", "sub:2:c1", "connect:0:1", "connect:1:2", "settle", "close:0", "waitclosed:0", "rel:0:c1", "waitswept:0:c1", "reopen:0", "settle"}, 0, "hist.scripted")
 	rounds := 8 * e.a.Scale
 	for r := 0; r < rounds; r++ {
-		for _, shape := range []string{"line", "ring", "star", "complete", "random", "late-links"} {
-			n := 3 + e.rng.Intn(3)
+		for _, shape := range []string{"line", "ring", "star", "complete", "random", "late-links", "parallel"} {
+			n := 3 + e.rng.Intn(4)
 			var ed [][2]int
 			late := 0
 			switch shape {
@@ -614,9 +277,24 @@ func (e *engine) runC28() {
 			case "late-links":
 				ed = e.randomConnected(n)
 				late = 1 + e.rng.Intn(len(ed))
+			case "parallel":
+				// any of the shapes with 1-3 pairs joined by a second (or third) link
+				switch e.rng.Intn(3) {
+				case 0:
+					ed = lineEdges(n)
+				case 1:
+					ed = ringEdges(n)
+				default:
+					ed = e.randomConnected(n)
+				}
+				for k := 1 + e.rng.Intn(3); k > 0; k-- {
+					ed = append(ed, ed[e.rng.Intn(len(ed))])
+				}
+				e.rng.Shuffle(len(ed), func(i, j int) { ed[i], ed[j] = ed[j], ed[i] })
+				late = e.rng.Intn(len(ed))
 			}
 			subsOf := make([][]string, n)
-			dense := e.rng.Intn(3) != 0
+			dense := e.rng.Intn(3) != 0 || shape == "parallel"
 			for i := range subsOf {
 				for _, ch := range []string{"c1", "c2"} {
 					p := 2
@@ -641,6 +319,10 @@ func (e *engine) runC28() {
 			e.runMesh(fmt.Sprintf("%s-r%d", shape, r), n, ed, subsOf, pubs, late, "mesh."+shape)
 		}
 		e.raceTwoNeighbours(r)
+	}
+	nh := 5 * e.a.Scale
+	for h := 0; h < nh; h++ {
+		e.runHistory(fmt.Sprintf("rand-h%d", h), 3+e.rng.Intn(4), nil, 10+e.rng.Intn(10), "hist.random")
 	}
 }
 
